@@ -17,7 +17,7 @@ TRUSTED = ["tools/gen_globaluses.py: clang-14 AST (-ast-dump=json) of every tran
            "aliases followed inside the function; cross-checked against the relocations of the compiled library (every referencing member must show "
            "a source use, every storing member a source write)",
            "objdump -h/-t/-dr/-r of libmpir.a (section flags, local and global object symbols, instruction operands)"]
-ASSUMPTIONS = ["a parameter declared pointer-to-const is not written through by the callee (no cast-away-const of a static's address)",
+ASSUMPTIONS = ["a pointer-to-const parameter is followed into the callee's body (4 levels deep, also through casts that drop the const) when the callee is defined in the library; for callees outside the library (libc) the prototype is trusted",
                "functions reached only through function pointers are not followed by the writer scan (the generator tables take the state as an explicit argument)",
                "relocated constants (.data.rel.ro*) are written only by the loader, before any thread of the program exists"]
 RULE = ("threadsx N seed nops profile: like `threads` with histories chosen by profile bits (printf/scanf, radix conversion around the precompute thresholds, "
